@@ -59,11 +59,59 @@ fn replay<E: Engine>(dump: &str, out: &str, known: &Known, opts: ReplayOpts) {
     if bad_lines > 0 {
         total.errors.push(format!("{} unparsable dump lines", bad_lines));
     }
+    for r in total.records.iter_mut() {
+        r["replay_flags"] = json!(std::env::args().skip(6).collect::<Vec<String>>());
+        r["harness_engine"] = json!(std::env::args().nth(2).unwrap_or_default());
+    }
     let mut o = total.to_json();
     o["engine"] = json!(E::NAME);
     o["conv_classes"] = json!(conv.len());
     let mut w = std::fs::File::create(out).expect("out file");
     w.write_all(serde_json::to_string_pretty(&o).unwrap().as_bytes()).unwrap();
+}
+
+/// re-execute the path of a recorded violation on the current tree, printing the real reads and state after every step
+fn replay_one<E: Engine>(rec: &Value, flags: &[String]) {
+    let fl: Vec<&str> = flags.iter().map(|s| s.as_str()).collect();
+    let steps = rec["h"].as_array().cloned().unwrap_or_default();
+    let mut n = 1usize;
+    for a in steps.iter() {
+        n = n.max(a[1].as_u64().unwrap_or(1) as usize);
+        if a[0] == "mrg" {
+            n = n.max(a[2].as_u64().unwrap_or(1) as usize);
+        }
+    }
+    let d = Dims { n: n.max(flagval(&fl, "--n")).max(2), m: flagval(&fl, "--m").max(3), k: flagval(&fl, "--k").max(3) };
+    let shared = fl.contains(&"--shared-actor");
+    let actor_of = move |r: usize| if shared && r <= 2 { 1u8 } else { r as u8 };
+    let mut sys: Sys<E> = Sys::new(d.n);
+    println!("replaying {} steps on {} replicas (engine {})", steps.len(), d.n, E::NAME);
+    for (i, a) in steps.iter().enumerate() {
+        match sys.step(a, &actor_of) {
+            Ok(who) => {
+                if who > 0 {
+                    let s = &sys.st[who - 1];
+                    println!("step {:2} {}  ->  replica {} reads {}", i + 1, a, who, E::reads(s, &d));
+                    if i + 1 == steps.len() {
+                        println!("        internal state of replica {}: {}", who, E::proj(s, &d));
+                    }
+                } else {
+                    println!("step {:2} {}", i + 1, a);
+                }
+            }
+            Err(e) => {
+                println!("step {:2} {}  ->  {}", i + 1, a, e);
+                break;
+            }
+        }
+    }
+    println!("recorded observable : {}", rec["obs"]);
+    println!("recorded real value : {}", rec["real"]);
+    println!("expected (layer A)  : {}", rec["A"]);
+    println!("model    (layer B)  : {}", rec["B"]);
+    if !rec["extra"].is_null() {
+        println!("context             : {}", rec["extra"]);
+    }
 }
 
 fn vectors(kind: &str, dump: &str, out: &str, known: &Known) {
@@ -137,9 +185,39 @@ fn main() {
                 "map_or" => replay::<eng_map::MapEng<crdts::Orswot<u8, u8>>>(dump, out, &known, opts),
                 "map_map_mv" => replay::<eng_map::MapEng<crdts::Map<u8, crdts::MVReg<u8, u8>, u8>>>(dump, out, &known, opts),
                 "map_map_or" => replay::<eng_map::MapEng<crdts::Map<u8, crdts::Orswot<u8, u8>, u8>>>(dump, out, &known, opts),
+                "map_map_map_mv" => replay::<eng_map::MapEng<crdts::Map<u8, crdts::Map<u8, crdts::MVReg<u8, u8>, u8>, u8>>>(dump, out, &known, opts),
                 e => {
                     eprintln!("unknown engine {}", e);
                     std::process::exit(2);
+                }
+            }
+        }
+        "replay-one" => {
+            let txt = std::fs::read_to_string(&args[2]).expect("replay file");
+            let v: Value = serde_json::from_str(&txt).expect("replay json");
+            let rec = &v["record"];
+            let flags: Vec<String> = rec["replay_flags"].as_array().map(|a| a.iter().filter_map(|x| x.as_str().map(|s| s.to_string())).collect()).unwrap_or_default();
+            let eng = rec["harness_engine"].as_str().or(rec["engine"].as_str()).unwrap_or("").to_string();
+            println!("property {}  verdict {}  props {}", v["property"], rec["verdict"], rec["props"]);
+            match eng.as_str() {
+                "orswot" => replay_one::<eng_orswot::OrswotEng>(rec, &flags),
+                "mvreg" => replay_one::<eng_mvreg::MVRegEng>(rec, &flags),
+                "map_mv" => replay_one::<eng_map::MapEng<crdts::MVReg<u8, u8>>>(rec, &flags),
+                "map_or" => replay_one::<eng_map::MapEng<crdts::Orswot<u8, u8>>>(rec, &flags),
+                "map_map_mv" => replay_one::<eng_map::MapEng<crdts::Map<u8, crdts::MVReg<u8, u8>, u8>>>(rec, &flags),
+                "map_map_or" => replay_one::<eng_map::MapEng<crdts::Map<u8, crdts::Orswot<u8, u8>, u8>>>(rec, &flags),
+                "map_map_map_mv" => replay_one::<eng_map::MapEng<crdts::Map<u8, crdts::Map<u8, crdts::MVReg<u8, u8>, u8>, u8>>>(rec, &flags),
+                "list" => replay_one::<eng_list::ListEng>(rec, &flags),
+                "glist" => replay_one::<eng_list::GListEng>(rec, &flags),
+                "merkle" => replay_one::<eng_merkle::MerkleEng>(rec, &flags),
+                "simple" => {
+                    let i = flags.iter().position(|f| f == "--kind").expect("--kind in replay flags");
+                    eng_simple::set_kind(&flags[i + 1]);
+                    replay_one::<eng_simple::SimpleEng>(rec, &flags)
+                }
+                _ => {
+                    // vector engines and trace events: the record itself is the complete case
+                    println!("case: {}", rec);
                 }
             }
         }
@@ -159,6 +237,9 @@ fn main() {
             match engine.as_str() {
                 "orswot" => drive::drive::<eng_orswot::OrswotEng>(out, &o),
                 "mvreg" => drive::drive::<eng_mvreg::MVRegEng>(out, &o),
+                "list" => drive::drive::<eng_list::ListEng>(out, &o),
+                "glist" => drive::drive::<eng_list::GListEng>(out, &o),
+                "merkle" => drive::drive::<eng_merkle::MerkleEng>(out, &o),
                 "map_mv" => drive::drive::<eng_map::MapEng<crdts::MVReg<u8, u8>>>(out, &o),
                 "map_or" => drive::drive::<eng_map::MapEng<crdts::Orswot<u8, u8>>>(out, &o),
                 "map_map_mv" => drive::drive::<eng_map::MapEng<crdts::Map<u8, crdts::MVReg<u8, u8>, u8>>>(out, &o),
